@@ -40,7 +40,12 @@ FIXED = ["", " ", "\n\r\t ", "junk", "<", ">", "<a>", "<A", "A>", "</A>", "<A>",
          "<A><B>1</B></A>x", "<A><B>1</b></A>", "<A><X><B>1</B></x></A>", "<A><B>1</B></A", "<A><B>1</B></", "<A><B>1</B><",
          "<A><B></B></A><C><D>", "<A>\n<B>\n<C>1\n</B>\n", "<A><B>1</B></A >", "<A><B>1</B></A></A>", "</A><A></A>",
          "<OFX><STMTRS><BANKTRANLIST><STMTTRN><TRNAMT>1</STMTTRN></BANKTRANLIST>",
-         "<A><B><![CDATA[x]]></B></A><A><B><![CDATA[x]]></B></A>", "junk<A></A>"]
+         "<A><B><![CDATA[x]]></B></A><A><B><![CDATA[x]]></B></A>", "junk<A></A>",
+         # white space after a CDATA section belongs to the match (C02's repaired finding cdata-space-before-end-tag);
+         # anything else there is tail text
+         "<A><B><![CDATA[x]]> </B></A>", "<A><B><![CDATA[x]]>\n</B>\n<C>1\n</A>", "<A><B><![CDATA[x]]> <C>2</A>",
+         "<A><B><![CDATA[x]]> junk</A>", "<A><B><![CDATA[x]]> junk</B></A>", "<A><B><![CDATA[x]]>\u200b</B></A>",
+         "<A><B><![CDATA[x]]> </B>", "<A><B><![CDATA[x]]> </A></A>", "<A><B><![CDATA[x]]> </B></B></A>"]
 
 
 def run(ctx):
